@@ -452,7 +452,8 @@ def r2(ctx: Ctx, roles) -> None:
                 return None
             rebinding = [n for n in gcl.reachable() if n.kind == "stmt" and isinstance(n.ast, ast.Assign) and any(isinstance(t, ast.Name) and t.id == arg.id for t in n.ast.targets) and isinstance(n.ast.value, ast.Call) and is_conn_error(ctx, closer.module.name, n.ast.value.func)]
             target = [n for n in gcl.reachable() if n.ast is not None and n.kind == "stmt" and any(x is c for x in walk_own(n.ast))]
-            if rebinding and target:
+            if target:
+                # (a site that only the "cause is already a connection error" branch reaches needs no re-binding)
                 reach = walk(gcl, {"cause_is_api_error": False}, classify, blocked=set(rebinding))
                 ok = not (reach & set(target))
                 why = "a foreign cause reaches the waiter un-wrapped" if not ok else ""
@@ -478,6 +479,114 @@ def r2(ctx: Ctx, roles) -> None:
     ctx.ob("C09.R2", sm, "write failure is wrapped as SocketClosedAPIError", len(wrapped) == 1 and all(isinstance(r.ast.exc, ast.Name) and r.ast.exc.id == wrapped[0].targets[0].id for r in raises), "")
     falls = [n for l, n in [(l, s) for x in g.reachable() if x.in_handler and x.ast in [y for b in h.body for y in ast.walk(b)] for l, s in x.succ] if n is g.exit]
     ctx.ob("C09.R2", sm, "write-failure handler always raises", not falls, "the handler can fall through and report success")
+    write_path_unconverted(ctx, "C09.R2")
+    error_construction_is_total(ctx)
+
+
+def error_construction_is_total(ctx: Ctx) -> None:
+    """Building a library error must not itself fail (the raw IndexError / KeyError would reach the waiter in place of
+    the classified error): the constructors of the connection-error classes and the package helpers called from them,
+    or inside the argument of such a constructor call anywhere in the package, contain no lookup that can raise
+    (a subscript with a non-constant index) and no raise."""
+    res = resolver(ctx)
+    funcs: dict[str, Func] = {}
+    for ci in ctx.repo.classes.values():
+        if ctx.repo.is_subclass(ci.name, "APIConnectionError") and "__init__" in ci.methods:
+            funcs[ci.methods["__init__"].key] = ci.methods["__init__"]
+    n_sites = 0
+    for fn in ctx.repo.all_funcs():
+        for c in own_nodes(fn.node):
+            if isinstance(c, ast.Call) and is_conn_error(ctx, fn.module.name, c.func):
+                n_sites += 1
+                for a in list(c.args) + [k.value for k in c.keywords]:
+                    for x in ast.walk(a):
+                        if isinstance(x, ast.Call):
+                            for f in res.callees(fn, x).funcs:
+                                if f.cls is None:
+                                    funcs[f.key] = f
+    todo = list(funcs.values())
+    while todo:
+        f = todo.pop()
+        for x in own_nodes(f.node):
+            if isinstance(x, ast.Call):
+                for g_ in res.callees(f, x).funcs:
+                    if g_.key not in funcs and g_.cls is None and g_.module.name == "core":
+                        funcs[g_.key] = g_
+                        todo.append(g_)
+    ctx.count("C09.R2.errsites", n_sites, 40, "constructor calls of connection-error classes")
+    for f in sorted(funcs.values(), key=lambda q: q.key):
+        bad = []
+        ann = {id(y) for a in ([f.node.args] + ([f.node.returns] if f.node.returns is not None else [])) for y in ast.walk(a)}
+        ann |= {id(y) for st in own_nodes(f.node) if isinstance(st, ast.AnnAssign) for y in ast.walk(st.annotation)}
+        for x in own_nodes(f.node):
+            if id(x) in ann:
+                continue
+            if isinstance(x, ast.Subscript) and isinstance(x.ctx, ast.Load) and not isinstance(x.slice, (ast.Constant, ast.Slice)):
+                bad.append(f"L{x.lineno} {norm(x)[:40]} can raise IndexError/KeyError")
+            if isinstance(x, ast.Raise):
+                bad.append(f"L{x.lineno} raises")
+        ctx.ob("C09.R2", f, "building a connection error cannot fail (no raising lookup)", not bad, f"{bad[:3]}: the waiter would see that raw error in place of the classified one")
+
+
+def write_path_unconverted(ctx: Ctx, rule: str) -> None:
+    """A transport write error has to arrive at send_messages' handler (the one that reports the fatal error and so
+    closes the connection) as a class that handler catches: below it nothing converts the error into another class
+    or swallows it, and what the write path raises itself is covered too."""
+    import builtins
+
+    res = resolver(ctx)
+    sm = ctx.repo.func("connection", "APIConnection.send_messages")
+    hs = [n for n in own_nodes(sm.node) if isinstance(n, ast.ExceptHandler)]
+    tries = [t for t in own_nodes(sm.node) if isinstance(t, ast.Try)]
+    ctx.require(len(hs) == 1 and len(tries) == 1, "send_messages: write-failure handler not found")
+    tv = ctx.sym.eval(hs[0].type, sm.module.name) if hs[0].type is not None else None
+    caught = [getattr(x, "name", None) for x in (tv if isinstance(tv, tuple) else (tv,))]
+    caught_b = tuple(getattr(builtins, c) for c in caught if isinstance(c, str) and isinstance(getattr(builtins, c, None), type))
+
+    def covered(cls_name: str) -> bool:
+        seen: set[str] = set()
+        todo = [cls_name]
+        while todo:
+            k = todo.pop()
+            if k in seen:
+                continue
+            seen.add(k)
+            if k in caught:
+                return True
+            b = getattr(builtins, k, None)
+            if isinstance(b, type) and caught_b and issubclass(b, caught_b):
+                return True
+            if k in ctx.repo.classes:
+                todo += [x.split(".")[-1] for x in ctx.repo.classes[k].base_names]
+        return False
+
+    path: list[Func] = []
+    todo_f = [f for t in tries for b in t.body for c in ast.walk(b) if isinstance(c, ast.Call) for f in res.callees(sm, c).funcs if f.module.name.startswith("_frame_helper")]
+    while todo_f:
+        f = todo_f.pop()
+        if f in path or len(path) > 12:
+            continue
+        path.append(f)
+        for c in own_nodes(f.node):
+            if isinstance(c, ast.Call):
+                todo_f += [x for x in res.callees(f, c).funcs if x.module.name.startswith("_frame_helper") and not x.name.startswith("__")]
+    ctx.require(len(path) >= 3, f"write path below send_messages not found: {[f.qualname for f in path]}")
+    problems = []
+    for f in path:
+        for n in own_nodes(f.node):
+            if isinstance(n, ast.Raise) and n.exc is not None:
+                e = n.exc.func if isinstance(n.exc, ast.Call) else n.exc
+                nm = norm(e).split(".")[-1]
+                in_handler = any(n in set(ast.walk(h)) for t in own_nodes(f.node) if isinstance(t, ast.Try) for h in t.handlers)
+                if isinstance(e, ast.Name) and e.id in {h.name for t in own_nodes(f.node) if isinstance(t, ast.Try) for h in t.handlers if h.name}:
+                    continue  # `raise err` of the caught exception itself
+                if not covered(nm):
+                    problems.append(f"{f.qualname} L{n.lineno}: raises {nm}{' in place of the transport error' if in_handler else ''}")
+            if isinstance(n, ast.Try):
+                for h in n.handlers:
+                    if not any(isinstance(x, ast.Raise) for x in ast.walk(h)):
+                        problems.append(f"{f.qualname} L{h.lineno}: except {norm(h.type) if h.type is not None else ''} swallows the error")
+    ctx.ob(rule, sm, f"a write failure reaches the reporting handler as a class it catches ({len(path)} functions on the write path)", not problems, f"{problems[:3]}; the handler catches {caught}: the failure would escape send_messages without closing the connection")
 
 
 def raised_cls_name(ctx: Ctx, fn: Func, e: ast.expr) -> str | None:
